@@ -52,8 +52,14 @@ char *c16_capture_escaped(const char *str, size_t *len, int *rc)
 		abort();
 	stdout = mem;
 	stderr = emem;
+#ifdef C16_NO_PRINT_ESCAPED
+	/* describe.c has no print_escaped(const char *) any more: the check reports the lost tie and goes on */
+	(void)str;
+	*rc = -2;
+#else
 	*rc = __builtin_choose_expr(__builtin_types_compatible_p(__typeof__(print_escaped(str)), void),
 				    (print_escaped(str), 0), print_escaped(str));
+#endif
 	fflush(mem);
 	stdout = saved;
 	stderr = saved_err;
